@@ -277,7 +277,7 @@ def check_sequential(ctx, case):
     if failed(r):
         return
     final = _validate(ctx, s.log, sets, bpm, kind, True)
-    ctx.check(r == {"bpm": final}, "return/final-tempo", lambda: "%r, expected bpm %r" % (r, final))
+    ctx.check(isinstance(r, dict) and r.get("bpm") == final, "return/final-tempo", lambda: "%r, expected bpm %r" % (r, final))
     _check_observers(ctx, s, obs, mode)
     # the same sequencer plays the same music again: the second pass emits the same events
     first = list(s.log)
@@ -351,7 +351,7 @@ def check_parallel(ctx, case):
     if failed(r):
         return
     final = _validate(ctx, log, sets, bpm, kind, False)
-    ctx.check(r == {"bpm": final}, "return/final-tempo", lambda: "%r, expected bpm %r" % (r, final))
+    ctx.check(isinstance(r, dict) and r.get("bpm") == final, "return/final-tempo", lambda: "%r, expected bpm %r" % (r, final))
     _check_observers(ctx, s, obs, mode)
     if kind == "bars":  # the same sequencer and the same Bar objects once more
         first = list(s.log)
@@ -409,6 +409,10 @@ def sub_sequential(ctx, shard, n):
         st.fixed_dictionaries(dict(common, kind=st.just("track"), track=SG.track_st(cfg))),
     )
     ctx.given("sequential", check_sequential, strat, 250 if ctx.quick else 2000)
+    if shard == 0:
+        # bars holding one entry (a rest, an empty container or a note of value 1, 2, 4 or the beat unit) in every meter
+        lone = SG.lone_entry_tracks([m for m in SG.ALL_METERS if m[0] in (1, 2, 3, 5, 6, 12)] if ctx.quick else None)
+        ctx.enumerate("sequential", check_sequential, [{"bpm": 240, "obs": OBS[i % len(OBS)], "form": "pos", "kind": "track", "track": t} for i, t in enumerate(lone)])
 
 
 @st.composite
